@@ -552,9 +552,11 @@ def run(ctx):
     clauses(ctx, o3, torch, quick, info, okn[:: 9 if quick else 3], tag="jit")
 
     # certificates that failed without a concrete failing input
-    for n in sorted((failed08 | failed19) - mism):
-        violation_once(ctx, f"corr:cert:{n}", dict(program=n, config=info[n]["cfg"].to_json(), broken=[p for p, s in (("C08", failed08), ("C19", failed19)) if n in s],
-                                            detail="certificate no longer checks; program and specification agree with the real module on the sampled inputs"), found=False)
+    rest = sorted((failed08 | failed19) - mism)
+    if rest:
+        violation_once(ctx, "corr:cert", dict(programs=rest, configs={n: info[n]["cfg"].to_json() for n in rest[:8]},
+                                              broken={n: [p for p, s_ in (("C08", failed08), ("C19", failed19)) if n in s_] for n in rest},
+                                              detail="certificates no longer check; program and specification agree with the real module on the sampled inputs"), found=False)
 
     # ---- 5. defects
     report_defects(ctx)
@@ -637,20 +639,25 @@ def corr_programs(ctx, info, okn, registry_ok, failed, quick):
         ctx.case(f"INFO {cfg.describe()}", nontrivial=lin.weight_numel > 0, sample_every=40)
         ctx.count("INFO")
         if not good and n not in reported:
-            # property-level oracle for the mask: a component with mask 0 must vanish for every input, mask 1 must not
+            # property-level oracle for the mask: a component with mask 0 must vanish for every input; a component with mask 1
+            # must not be identically zero (the driver's exact symbolic execution says which components are the zero polynomial)
             got, _ = real_eval(cfg, lin, F.B, 3)
+            got2, _ = real_eval(cfg, lin, F.B, 4)
             dO = lin.irreps_out.dim
-            wrong = [t for t in range(len(got)) if dO and mask[t % dO] == "0" and got[t] != 0.0]
-            if wrong:
+            wrong0 = [t for t in range(len(got)) if dO and mask[t % dO] == "0" and got[t] != 0.0]
+            wrong1 = [t for t in range(dO) if mask[t] == "1" and m.group(6)[t:t + 1] == "1" and got[t] == 0.0 and got2[t] == 0.0]
+            if wrong0 or wrong1:
                 reported.add(n)
-                violation_once(ctx, "Linear/output_mask", dict(config=cfg.to_json(), mask=mask, nonzero_components=wrong, got=got,
-                                                         expected="components with output_mask 0 are identically zero"), found=True)
+                violation_once(ctx, "Linear/output_mask", dict(config=cfg.to_json(), mask=mask, nonzero_components_with_mask_0=wrong0,
+                                                               identically_zero_components_with_mask_1=wrong1, got=got,
+                                                               expected="output_mask[k] = 0 exactly for the components that are identically zero"), found=True)
             else:
                 bad_run.append((n, 0, f"introspection: driver '{o[:200]}' vs module weight_numel={lin.weight_numel} bias_numel={lin.bias_numel} mask={mask} views={views}"))
-    for n, s, why in bad_run[:5]:
-        if n not in reported:
-            reported.add(n)
-            violation_once(ctx, f"corr:RUN:{n}", dict(program=n, config=info[n]["cfg"].to_json(), seed=s, detail=why), found=False)
+    bad_run = [(n, s_, why) for n, s_, why in bad_run if n not in reported]
+    if bad_run:
+        reported |= {n for n, _, _ in bad_run}
+        violation_once(ctx, "corr:RUN", dict(programs=sorted({n for n, _, _ in bad_run}),
+                                             first=[dict(program=n, config=info[n]["cfg"].to_json(), seed=s_, detail=why) for n, s_, why in bad_run[:5]]), found=False)
     return reported
 
 
